@@ -398,6 +398,8 @@ Proof.
   - apply IH.
   - destruct (nth_error (crec ctx) k); [apply IH|]. repeat split; cbn; discriminate.
   - (* Pratt *) apply (proj1 (pratt_good _ IH m g ops ctx n)).
+  - (* GroupArr *) apply group_loop_good; exact IH.
+  - (* NestedIn *) cbn [nested no_quirks]. repeat split; cbn; discriminate.
 Qed.
 
 (* the top level always reports a failure through the error list *)
